@@ -1,4 +1,144 @@
-import LecModel
-import LecGen
+/-
+  C19 — The ISA-L adapters decode and reconstruct correctly for every erasure pattern.
+
+  The adapters (src/backends/isa-l/isa_l_common.c) are modelled over an abstract record of the
+  primitives they bind with dlsym (`IsaPrims`: field multiply, generator matrix, matrix inversion;
+  table expansion + encode = matrix·vector).  `IsaPrimsOK P k m φ` is the documented contract of
+  such a library over ANY field F (φ embeds byte values): xor is addition, `mul` is the product,
+  the generator is systematic, and a returned inverse is an inverse.  Nothing is assumed about
+  WHEN inversion fails.  For every library meeting the contract, every k, m, payload length and
+  content:
+  `roundtrip`, `fidelity`, `no_silent_corruption`
+        the front-end theorems of C01 / C03 / C02 hold for the adapter with tolerance "at most m
+        missing and the library inverts the k surviving rows it is given" — exact data, byte
+        identical reconstructed fragments (missing-parity rows are `G[row]·inv`), and never wrong
+        bytes or a fault for any fragment subset;
+  `inversion_failure`   when inversion fails decode and reconstruct return the error -1;
+  `needed`        fragments-needed is the Reed–Solomon planner (C06.rs_needed_*);
+  `parity`        parity byte b of parity i is Σ_j G[k+i][j]·data_j[b] in F;
+  `reference_library_ok`  non-vacuity: the GF(2^8)/0x11d primitives that harness/isal_ref
+        implements (both generator constructions, Gauss–Jordan inversion, proved sound and
+        complete) satisfy the contract — GF(2^8) arithmetic is shown to be a field the same way
+        as GF(2^16).
+  Tie: the real adapters run over the verif-owned libisal.so.2 (clean-room C), both generator
+  kinds, all shapes n ≤ 11 with every erasure set and destination (thorough), sampled up to
+  k+m = 32, injected inversion failures; every result is diffed against this model.
+-/
+import LecProofs.IsaLCorrect
+import LecProofs.IsaLGF8
+import LecProofs.Instances
+import LecModel.Create
+import LecProps.C01
+import LecProps.C02
+import LecProps.C03
 namespace LecProps.C19
+open Lec
+
+variable {F : Type} [Field F] {P : IsaPrims} {k m : Nat} {φ : Nat → F}
+
+/-- instance record `create` returns for the ISA-L backends (w = 8). -/
+def isaInst (be k m ct : Nat) : Inst := { beId := be, beVer := beVersion be, k := k, m := m, w := 8, ct := ct }
+
+/-- tolerance of the adapter: at most m missing and the library inverts the surviving rows. -/
+def IsaTol (P : IsaPrims) (k m : Nat) (missing : List Nat) : Prop :=
+  missing.length ≤ m ∧ (P.invert k (IsaL.availRows P k m missing)).isSome
+
+theorem isa_frontOK (env : Env) (be k m ct len : Nat) (hk : 1 ≤ k) (hkm : k + m ≤ 32) (hbe : be = 4 ∨ be = 7)
+    (hct : ct < 256) (hlv : env.libver < 2 ^ 32) (hl0 : env.libver ≠ 0) (hlen : len < 2 ^ 31 - 2 ^ 12) :
+    FrontOK env (isaInst be k m ct) len := by
+  refine frontOK_of_created env (isaInst be k m ct) len hk hkm (by simp [isaInst]) (by simp [isaInst]) hct
+    ?_ ?_ hlv hl0 hlen
+  · rcases hbe with rfl | rfl <;> simp [isaInst]
+  · rcases hbe with rfl | rfl <;> simp [isaInst, beVersion]
+
+theorem roundtrip (hP : IsaPrimsOK P k m φ) (env : Env) (be ct : Nat) (hk : 1 ≤ k) (hkm : k + m ≤ 32)
+    (hbe : be = 4 ∨ be = 7) (hct : ct < 256) (hlv : env.libver < 2 ^ 32) (hl0 : env.libver ≠ 0)
+    (data : Bytes) (hlen : data.length < 2 ^ 31 - 2 ^ 12) (enc frags : List Bytes)
+    (henc : encode env (isaBackend P k m (beVersion be)) (isaInst be k m ct) data = .ok enc)
+    (hsub : ∀ f ∈ frags, f ∈ enc) (htol : IsaTol P k m (missingOfStripe enc frags))
+    (hn : k ≤ frags.length) (force : Bool) :
+    decode env (isaBackend P k m (beVersion be)) (isaInst be k m ct) frags
+      (80 + blockSize (isaInst be k m ct) data.length) force = .ok data :=
+  LecProps.C01.roundtrip env _ (isaInst be k m ct) data enc frags (isa_encodeOK hP _) (isa_decodeOK hP _)
+    trivial (isa_frontOK env be k m ct data.length hk hkm hbe hct hlv hl0 hlen)
+    (by simp [isaBackend, isaInst]) henc hsub htol htol.1 hn force
+
+theorem fidelity (hP : IsaPrimsOK P k m φ) (env : Env) (be ct : Nat) (hk : 1 ≤ k) (hkm : k + m ≤ 32)
+    (hbe : be = 4 ∨ be = 7) (hct : ct < 256) (hlv : env.libver < 2 ^ 32) (hl0 : env.libver ≠ 0)
+    (data : Bytes) (hlen : data.length < 2 ^ 31 - 2 ^ 12) (enc frags : List Bytes)
+    (henc : encode env (isaBackend P k m (beVersion be)) (isaInst be k m ct) data = .ok enc)
+    (hsub : ∀ f ∈ frags, f ∈ enc) (htol : IsaTol P k m (missingOfStripe enc frags))
+    (dest : Nat) (hd : dest < k + m) :
+    reconstruct env (isaBackend P k m (beVersion be)) (isaInst be k m ct) frags
+      (80 + blockSize (isaInst be k m ct) data.length) dest = .ok (enc.getD dest []) :=
+  LecProps.C03.fidelity env _ (isaInst be k m ct) data enc frags (isa_encodeOK hP _) (isa_decodeOK hP _)
+    trivial (isa_frontOK env be k m ct data.length hk hkm hbe hct hlv hl0 hlen) henc hsub htol htol.1 dest hd
+
+/-- every error the adapter's decode / reconstruct can return is the C code's -1. -/
+theorem adapter_errors_negative (P : IsaPrims) (k m ver : Nat) (d p : List Bytes) (ms : List Nat) (b : Nat) (e : Int) :
+    ((isaBackend P k m ver).decode d p ms b = .error (.rc e) → e < 0) ∧
+    (∀ dst, (isaBackend P k m ver).reconstruct d p ms dst b = .error (.rc e) → e < 0) := by
+  constructor
+  · intro h
+    simp only [isaBackend, isaDecode] at h
+    repeat' split at h
+    all_goals first | (cases h; done) | (simp only [Except.error.injEq, Fail.rc.injEq] at h; omega)
+  · intro dst h
+    simp only [isaBackend, isaReconstruct] at h
+    repeat' split at h
+    all_goals first | (cases h; done) | (simp only [Except.error.injEq, Fail.rc.injEq] at h; omega)
+
+theorem no_silent_corruption (hP : IsaPrimsOK P k m φ) (env : Env) (be ct : Nat) (hk : 1 ≤ k) (hkm : k + m ≤ 32)
+    (hbe : be = 4 ∨ be = 7) (hct : ct < 256) (hlv : env.libver < 2 ^ 32) (hl0 : env.libver ≠ 0)
+    (data : Bytes) (hlen : data.length < 2 ^ 31 - 2 ^ 12) (enc frags : List Bytes)
+    (henc : encode env (isaBackend P k m (beVersion be)) (isaInst be k m ct) data = .ok enc)
+    (hsub : ∀ f ∈ frags, f ∈ enc) (force : Bool) (dest : Int) :
+    (decode env (isaBackend P k m (beVersion be)) (isaInst be k m ct) frags
+        (80 + blockSize (isaInst be k m ct) data.length) force = .ok data ∨
+     ∃ e, decode env (isaBackend P k m (beVersion be)) (isaInst be k m ct) frags
+        (80 + blockSize (isaInst be k m ct) data.length) force = .error (.rc e) ∧ e < 0) ∧
+    (reconstruct env (isaBackend P k m (beVersion be)) (isaInst be k m ct) frags
+        (80 + blockSize (isaInst be k m ct) data.length) dest = .ok (enc.getD dest.toNat []) ∨
+     ∃ e, reconstruct env (isaBackend P k m (beVersion be)) (isaInst be k m ct) frags
+        (80 + blockSize (isaInst be k m ct) data.length) dest = .error (.rc e) ∧ e < 0) :=
+  ⟨LecProps.C02.decode_exact_or_error env _ (isaInst be k m ct) data enc frags (isa_encodeOK hP _)
+      (isa_decodeSound hP _) (fun d p ms b e h => (adapter_errors_negative P k m _ d p ms b e).1 h) trivial
+      (isa_frontOK env be k m ct data.length hk hkm hbe hct hlv hl0 hlen) henc hsub force,
+   LecProps.C02.reconstruct_exact_or_error env _ (isaInst be k m ct) data enc frags (isa_encodeOK hP _)
+      (isa_decodeSound hP _) (fun d p ms dst b e h => (adapter_errors_negative P k m _ d p ms b e).2 dst h) trivial
+      (isa_frontOK env be k m ct data.length hk hkm hbe hct hlv hl0 hlen) henc hsub dest⟩
+
+theorem inversion_failure (P : IsaPrims) (k m ver : Nat) (d p : List Bytes) (missing : List Nat) (dest bs : Nat)
+    (h : P.invert k (IsaL.availRows P k m missing) = none) :
+    (isaBackend P k m ver).decode d p missing bs = .error (.rc (-1)) ∧
+    (isaBackend P k m ver).reconstruct d p missing dest bs = .error (.rc (-1)) :=
+  ⟨isa_decode_fail d p bs h, isa_reconstruct_fail d p dest bs h⟩
+
+theorem needed (P : IsaPrims) (k m ver : Nat) : (isaBackend P k m ver).needed = rsNeeded k m := isa_needed P k m ver
+
+theorem parity (hP : IsaPrimsOK P k m φ) {ver bs : Nat} {dataP parP : List Bytes}
+    (h : IsStripe (isaBackend P k m ver) k m bs dataP parP) {i : Nat} (hi : i < m) {b : Nat} (hb : b < bs) :
+    φ (IsaL.bv (parP.getD i []) b) =
+      ∑ j ∈ Finset.range k, φ (IsaL.ge P k m (k + i) j) * φ (IsaL.bv (dataP.getD j []) b) :=
+  isa_parity_byte hP h hi hb
+
+/-- with a library whose inversion is complete, "surviving rows invertible" is the tolerance. -/
+theorem tolerance_of_complete (hP : IsaPrimsOK P k m φ) (hc : IsaInvertComplete P k φ)
+    {missing : List Nat} (hlen : missing.length ≤ m)
+    (hN : ∃ N : Nat → Nat → F, ∀ i j, i < k → j < k →
+      ∑ l ∈ Finset.range k, N i l * φ (((IsaL.availRows P k m missing).getD l []).getD j 0) =
+        if i = j then 1 else 0) : IsaTol P k m missing :=
+  ⟨hlen, isa_tol_of_complete hP hc hlen hN⟩
+
+/-- non-vacuity: the reference primitives meet the contract (and their inversion is complete). -/
+theorem reference_library_ok (k m : Nat) (hkm : k + m ≤ 256) :
+    IsaPrimsOK gf8PrimsVand k m IsaL.GF8.ofNat ∧ IsaPrimsOK gf8PrimsCauchy k m IsaL.GF8.ofNat ∧
+    IsaInvertComplete gf8PrimsVand k IsaL.GF8.ofNat ∧ IsaInvertComplete gf8PrimsCauchy k IsaL.GF8.ofNat :=
+  ⟨IsaL.gf8_primsOK_vand k m, IsaL.gf8_primsOK_cauchy hkm, IsaL.gf8_invertComplete rfl k, IsaL.gf8_invertComplete rfl k⟩
+
+#print axioms roundtrip
+#print axioms fidelity
+#print axioms no_silent_corruption
+#print axioms inversion_failure
+#print axioms reference_library_ok
 end LecProps.C19
